@@ -630,3 +630,46 @@ theorem C17.power_wrap_same_shape (s : PSelf) (m : Method) (nin : Nat) (dt : DTy
     powerDispatch s m nin 1 [] (.ok [.arr [] dt]) = .ok [.scalar] ∧
     powerDispatch s m nin 1 [.ndarray] (.ok [.arr s.shape dt]) = .ok [.given 0] := by
   cases m <;> simp_all [powerDispatch, out1, powerWrap, OutKind.given]
+
+/-! ## Legacy interface on product spaces -/
+
+/-- Every legacy name has a `ProductSpaceUfuncs` wrapper (its `(nin, nout)` is one of the three
+generated forms): `px.ufuncs.<name>` exists for all of `RAW_UFUNCS`. Re-checked against the
+live source on every run. -/
+theorem C17.legacy_power_table_total :
+    legacyNames.all (fun name =>
+      (powerLegacyCall legacyNames legacyPowerRules npUfuncs name ⟨[2, 3], .float64⟩ []
+        (.err "")).isSome) = true ∧
+    legacyPowerReductions = [("sum", "sum"), ("prod", "prod"), ("min", "min"), ("max", "max")] := by
+  decide
+
+/-- `px.ufuncs.<name>(out=…)`: a given `out` (per position) is the object returned, for all
+three wrapper forms, any result shapes and dtypes. -/
+theorem C17.legacy_power_out_identity (s : PSelf) (rule : PLegacyRule) (outs : List OutKind)
+    (vals : List NpVal) (rets : List Ret) (h : powerLegacy s rule outs (.ok vals) = .ok rets)
+    (i : Nat) (hg : (outs.getD i .none).given = true) (hi : i < vals.length) :
+    rets[i]? = some (.given i) := by
+  unfold powerLegacy at h
+  rcases vals with _ | ⟨v1, _ | ⟨v2, _ | ⟨v3, t⟩⟩⟩
+  · simp at hi
+  · have : i = 0 := by simp at hi; omega
+    subst this
+    cases rule <;> cases v1 <;> simp_all <;> (repeat' split at h) <;>
+      first | done | (simp_all; done) | (subst h; simp) | (subst_vars; simp_all)
+  · have : i = 0 ∨ i = 1 := by simp at hi; omega
+    cases rule <;> cases v1 <;> cases v2 <;> simp_all <;>
+      rcases this with rfl | rfl <;> (repeat' split at h)
+    all_goals first | done | (simp_all; done) | (injection h with h; subst h; simp; done) | (simp at h; subst h; simp_all)
+  · cases rule <;> simp_all
+
+/-- Open part of C17-F6 on the model: without `out` the legacy interface stores the result in
+the ORIGINAL space — the wrapped dtype is the space's, never NumPy's (so `px.ufuncs.isnan()`
+is float and `px.ufuncs.sin()` on an integer power space is truncated); a two-output ufunc
+whose result cannot be cast into the space dtype raises. For every space and result dtype. -/
+theorem C17.legacy_power_casts (s : PSelf) (dt : DType) :
+    powerLegacy s .mapOrInto [] (.ok [.arr s.shape dt]) = .ok [.wrapP s.shape s.dt] ∧
+    powerLegacy s .binary [] (.ok [.arr s.shape dt]) = .ok [.wrapP s.shape s.dt] ∧
+    powerLegacy ⟨[2, 3], .int64⟩ .twoOut [] (.ok [.arr [2, 3] .float64, .arr [2, 3] .float64]) =
+      .err "UFuncTypeError" := by
+  refine ⟨by simp [powerLegacy, OutKind.given], by simp [powerLegacy, OutKind.given], by decide⟩
+
